@@ -405,8 +405,108 @@ def shared_literal_cases(ctx):
                            "first_failing_clause": "tracks built from separate pattern objects do not interfere"})
 
 
+def shared_event_dict_cases(ctx, prop="C07", kinds=("canon", "canon", "template-args")):
+    """Streams that are patterns YIELDING dicts (a written phrase of event dicts played by several tracks, in canon; one
+    template dict yielded again and again): the dicts belong to the caller — performing an event neither writes the computed note
+    back into them nor freezes the patterns they hold, so every track plays what it plays alone and a template is resolved
+    afresh at every event (implementation-only oracle: the phrase computed by hand)."""
+    import copy
+    import isobar as iso
+    from isobar.io.output import OutputDevice
+    r = ctx.rng
+
+    class Rec(OutputDevice):
+        def __init__(self):
+            super().__init__()
+            self.notes = {}
+
+        def note_on(self, note=60, velocity=64, channel=0):
+            self.notes.setdefault(channel, []).append(note)
+
+        def note_off(self, note=60, channel=0):
+            pass
+
+    for i in range(ctx.scale(80, 3000)):
+        tpb = r.choice([1, 4, 24])
+        # (patterns as VALUES of a yielded dict are not resolved by the library — only the action arguments are — so the template
+        #  case is an action event whose args hold a pattern)
+        kind = r.choice(list(kinds))
+        dev = Rec()
+        tl = iso.Timeline(120, output_device=dev, clock_source=iso.DummyClock(ticks_per_beat=tpb))
+        case = {"kind": kind, "tpb": tpb}
+        bad = None
+        if kind == "canon":
+            n = r.randint(1, 4)
+            phrase = []
+            for _ in range(n):
+                d = {"duration": 1}
+                if r.random() < 0.5:
+                    d["degree"] = r.randint(-7, 14)
+                else:
+                    d["note"] = r.randint(30, 70)
+                if r.random() < 0.7:
+                    d["octave"] = r.randint(0, 3)
+                if r.random() < 0.7:
+                    d["transpose"] = r.randint(-5, 5)
+                phrase.append(d)
+            before = copy.deepcopy(phrase)
+            voices = r.randint(1, 3)
+            reps = r.randint(1, 3)
+            starts = sorted(r.sample(range(0, 6), voices))
+            for v in range(voices):
+                tl.schedule(iso.PSequence([dict(d, channel=v) for d in phrase] if False else phrase, reps), delay=starts[v],
+                            name="v%d" % v)
+            # one device channel per voice is not available (the dicts are shared): voices are told apart by their onsets
+            onsets = []
+
+            class Rec2(Rec):
+                def note_on(self_inner, note=60, velocity=64, channel=0):
+                    onsets.append((round(tl.current_time * tpb), note))
+            tl.output_devices[0].__class__ = Rec2
+            for _ in range((max(starts) + n * reps + 2) * tpb):
+                tl.tick()
+            key = iso.Key("C", "major")
+
+            def note_of(d):
+                base = key.get(d["degree"]) if "degree" in d else d["note"]
+                return base + 12 * d.get("octave", 0) + d.get("transpose", 0)
+            exp = sorted((( starts[v] + j) * tpb, note_of(before[j % n])) for v in range(voices) for j in range(n * reps))
+            got = sorted(onsets)
+            case.update(phrase=repr(before), voices=voices, repeats=reps, starts=starts)
+            if got != exp:
+                bad = "the voices play (tick, note) %s, each alone (the phrase as written) %s" % (got[:12], exp[:12])
+            elif phrase != before:
+                bad = "the caller's phrase was %s and is now %s" % (before, phrase)
+        else:
+            xs = [r.randint(1, 90) for _ in range(r.randint(2, 5))]
+            m = r.randint(2, 6)
+            seen = []
+            if kind == "template-args":
+                tmpl = {"action": lambda x, y=0: seen.append((x, y)), "args": {"x": iso.PSequence(list(xs)), "y": 7}, "duration": 1}
+            else:
+                tmpl = {"note": iso.PSequence(list(xs)), "octave": 1, "duration": 1}
+            tl.schedule(iso.PSequence([tmpl], m))
+            for _ in range((m + 1) * tpb):
+                tl.tick()
+            if kind == "template-args":
+                got, exp = seen, [(xs[j % len(xs)], 7) for j in range(m)]
+            else:
+                got, exp = dev.notes.get(0, []), [xs[j % len(xs)] + 12 for j in range(m)]
+            case.update(values=xs, events=m)
+            if got != exp:
+                bad = "one template dict yielded %d times: performed %s, resolved afresh each time it would be %s" % (m, got, exp)
+        ctx.case(("event-dicts", kind, repr(sorted(case.items(), key=str))), nontrivial=True, validated=False,
+                 sample={"part": "shared event dicts", "case": {k: repr(v)[:120] for k, v in case.items()}} if i < 3 else None)
+        ctx.count("event-dicts:" + kind)
+        if bad:
+            ctx.violation(prop + ":shared-event-dicts:" + kind, "%s at %d ticks per beat: %s" % (kind, tpb, bad),
+                          {"suite": prop.lower() + "-event-dicts", "case": {k: repr(v) for k, v in case.items()},
+                           "first_failing_clause": "tracks produce exactly what each produces alone / resolved once per event"})
+
+
 def run(ctx):
     shared_literal_cases(ctx)
+    shared_event_dict_cases(ctx)
     sched_suite.run_suite(ctx, PROF, ctx.scale(1000, 80000), "c07", [order_oracle], coincide, signature_of)
     # (no order oracle here: the notes of a failing track are released when it is removed, after its events of that tick;
     #  the model has that release in the same place, `flushOf` in `phaseTracks`)
